@@ -428,6 +428,10 @@ class FullTranslator(Translator):
             if name == 'max':
                 return E(str(2 ** (rt.w - 1) - 1 if rt.signed else 2 ** rt.w - 1), rt)
             return E('(%d)' % -(2 ** (rt.w - 1)) if rt.signed else '0', rt)
+        if name == 'distance' and len(args) == 2 and all(a.ty.kind == 'ptr' for a in args) and \
+                re.match(r'(::)?std::distance\b', self.src.text(c).strip()):
+            # std::distance(p, q) on character cursors = q - p
+            return E('%s - %s' % (paren(args[1].term), paren(args[0].term)), self.resolve(n['type'], n), conj(*[a.defd for a in args]))
         if name not in STD_WHITELIST:
             self.bad(n, 'call to %s, which is neither an osmium function nor on the whitelist' % name)
         dd = conj(*[a.defd for a in args])
